@@ -1,9 +1,21 @@
 ID = 'C19'
 UNITS = {'ut': dict(wrap='wrap.cc', new_block=64)}
-BOUNDS = ''
-STUBS = []
-OUTSIDE = []
-ASSUMPTIONS = []
+BOUNDS = ('expect_raises_fn<E> for 13 expected types E (runtime_error, logic_error, out_of_range, invalid_argument, phosg::expectation_failed, '
+          'bad_alloc, std::exception (specialisation), user type : runtime_error, user type two levels below runtime_error, length_error, int, '
+          'user type with multiple inheritance, bad_function_call) x 14 callback behaviours (returns / throws one of 12 types / is an empty '
+          'std::function), line number any 64-bit value; expect_generic: pred and line symbolic; comparison macros: all int64/uint64/double '
+          'operand pairs, std::string operands up to 2 bytes (quick) / 3 bytes (thorough), all 7 macros')
+STUBS = ['vasprintf (called by string_printf for failure messages): returns the fixed 24-byte text "formatted-message-text.." - message '
+         'FORMATTING is not checked, only that the carried message pointer is readable and is the literal / the formatted text',
+         'std exception objects thrown by the callback: constructors/what() are the runtime model (rt_model.c): what() == "what"']
+OUTSIDE = ['operand evaluation of the comparison macros beyond int64/uint64/double/std::string (the relation is the language\'s)',
+           'catching through a base class at non-zero offset / virtual base (needs pointer adjustment; the translator reports it as unmodelled)',
+           'the text of what() / of formatted messages',
+           'msg_* queries are not translation-validated on their own (tv=False): on the unpatched tree the real build aborts under ASan '
+           '(use-after-free) where generated C just reads; the exception lowering they rely on is validated by the raises_* queries']
+ASSUMPTIONS = ['the translator\'s landing-pad model (ir2c.py: type ids + subclass table from the IR typeinfo objects, __si and __vmi class type info, '
+               'and the fixed libstdc++ hierarchy STD_BASES) - validated per query by running the same harness on generated C and on the real '
+               'g++ build for 200 pseudo-random (E, behaviour) draws per E: all 14 behaviours are hit for every E (checked, see NOTES.md)']
 ENAMES = {1: 'runtime_error', 2: 'logic_error', 3: 'out_of_range', 4: 'invalid_argument', 5: 'expectation_failed', 6: 'bad_alloc',
           7: 'exception', 8: 'UserErr', 9: 'UserErr2', 10: 'length_error', 11: 'int', 12: 'UserMI', 13: 'bad_function_call'}
 
